@@ -252,6 +252,35 @@ def build(spec):
         obj.meta = target.meta
         obj.visual = target.visual
         return obj
+    if spec.get('build') == 'inplace' and cls in ASSIGNABLE:
+        # the same object, USED, then moved by writing INTO the coordinate
+        # objects it holds (region.center.x = ..., vertices.x[...] = ...) and
+        # into its meta dict: no attribute of the region is assigned, so a
+        # cache dropped by the attribute descriptors stays stale
+        target = build(dict(spec, build='direct'))
+        d = dict(spec, build='direct')
+        d.pop('num', None)
+        for key in ('center', 'start', 'end'):
+            if key in d:
+                d[key] = [float(d[key][0]) + 3.25, float(d[key][1]) - 1.5]
+        if 'vertices' in d:
+            d['vertices'] = [[float(t) * 1.5 + 2.0 for t in d['vertices'][0]],
+                             [float(t) * 0.5 - 1.0 for t in d['vertices'][1]]]
+        inc = (spec.get('meta') or {}).get('include', True)
+        d['meta'] = {'include': not bool(inc), 'text': 'decoy'}
+        obj = build(d)
+        _touch(obj)
+        for p in obj._params:
+            if p in ('center', 'start', 'end'):
+                c, t = getattr(obj, p), getattr(target, p)
+                c.x, c.y = t.x, t.y
+            elif p == 'vertices':
+                c, t = obj.vertices, target.vertices
+                c.x[...] = t.x
+                c.y[...] = t.y
+        obj.meta.clear()
+        obj.meta.update(target.meta)
+        return obj
     k = spec.get('num')
     m, v = meta_objs(spec)
     kw = {}
@@ -461,6 +490,10 @@ def _build_wcs(w):
         elif frame == 'fk4':
             wcs.wcs.radesys = 'FK4'
             wcs.wcs.equinox = 1950.0
+        elif frame == 'fk5_j1975':
+            # a frame whose ATTRIBUTES are not the defaults
+            wcs.wcs.radesys = 'FK5'
+            wcs.wcs.equinox = 1975.0
         else:
             raise ValueError(frame)
     wcs.wcs.crval = list(w['crval'])
